@@ -2,7 +2,7 @@
 #![allow(dead_code, unused_imports)]
 use super::*;
 use crate::vk;
-use crate::{vk_cover, vk_proof_models};
+use crate::{vk_cover, vk_proof_models, vk_proof_models_fmt};
 
 /// Value stored for `c` (zero when absent) and whether an entry exists at all.
 pub(crate) fn part<'ctx>(a: &Amount<'ctx>, c: Commodity<'ctx>) -> (Decimal, bool) {
@@ -14,4 +14,105 @@ pub(crate) fn part<'ctx>(a: &Amount<'ctx>, c: Commodity<'ctx>) -> (Decimal, bool
 
 pub(crate) fn n_entries(a: &Amount<'_>) -> usize {
     a.values.len()
+}
+
+use crate::report::book_keeping::verif_kani::{commodity, dec16};
+
+/// C08-H2 / C13: where a single amount is required, a multi-commodity sum is rejected — whatever the
+/// iteration order of the map — instead of silently becoming one of its commodities.
+vk_proof_models! { unwind 6; fn c08_single_amount_required() {
+    let n = vk::below(3);
+    let v0 = dec16(0);
+    let v1 = dec16(0);
+    let swap = vk::bool();
+    vk::order_nondet(true);
+    let (x, y) = (commodity(0), commodity(1));
+    vk::note(&|| format!("amount with {} commodities: {} X, {} Y (inserted Y first: {})", n, v0, v1, swap));
+    let a = match n {
+        0 => Amount::zero(),
+        1 => Amount::from_values([(v0, x)]),
+        _ => {
+            if swap { Amount::from_values([(v1, y), (v0, x)]) } else { Amount::from_values([(v0, x), (v1, y)]) }
+        }
+    };
+    let s: Result<SingleAmount, EvalError> = (&a).try_into();
+    let p: Result<PostingAmount, EvalError> = (&a).try_into();
+    match n {
+        0 => {
+            assert!(s.is_err(), "C08: empty amount converted to a single amount");
+            assert!(p == Ok(PostingAmount::Zero), "C08: empty amount is not the bare zero posting amount");
+        }
+        1 => {
+            assert!(s == Ok(SingleAmount::from_value(v0, x)), "C08: single-commodity amount not converted to itself");
+            assert!(p == Ok(PostingAmount::Single(SingleAmount::from_value(v0, x))), "C08: single-commodity amount not converted to itself (posting)");
+        }
+        _ => {
+            assert!(s.is_err(), "C08: multi-commodity sum accepted where a single amount is required (an arbitrary commodity is picked)");
+            assert!(p.is_err(), "C08: multi-commodity sum accepted as a posting amount");
+        }
+    }
+    vk_cover!(n == 2 && swap, "two commodities, second inserted first");
+    core::mem::forget(a);
+} }
+
+/// Fixed-size text sink (no heap growth under the solver).
+struct Sink {
+    buf: [u8; 16],
+    n: usize,
+}
+
+impl core::fmt::Write for Sink {
+    fn write_str(&mut self, s: &str) -> core::fmt::Result {
+        let b = s.as_bytes();
+        let mut i = 0;
+        while i < b.len() {
+            if self.n >= 16 {
+                return Err(core::fmt::Error);
+            }
+            self.buf[self.n] = b[i];
+            self.n += 1;
+            i += 1;
+        }
+        Ok(())
+    }
+}
+
+/// C13: the inline text of a multi-commodity amount (used in error messages and `eval` output) does not
+/// depend on map iteration order: two maps with equal content and independent orders print the same.
+vk_proof_models_fmt! { unwind 18; fn c13_inline_display_order() {
+    let swap = vk::bool();
+    vk::order_nondet(true);
+    let (x, y) = (commodity(0), commodity(1));
+    let one = Decimal::from_parts(1, 0, 0, false, 0);
+    let two = Decimal::from_parts(2, 0, 0, false, 0);
+    let a = Amount::from_values([(one, x), (two, y)]);
+    let b = if swap { Amount::from_values([(two, y), (one, x)]) } else { Amount::from_values([(one, x), (two, y)]) };
+    use core::fmt::Write as _;
+    let mut sa = Sink { buf: [0; 16], n: 0 };
+    let mut sb = Sink { buf: [0; 16], n: 0 };
+    write!(sa, "{}", a.as_inline_display()).unwrap();
+    write!(sb, "{}", b.as_inline_display()).unwrap();
+    vk::note(&|| format!("texts {:?} / {:?}", core::str::from_utf8(&sa.buf[..sa.n]), core::str::from_utf8(&sb.buf[..sb.n])));
+    assert!(sa.n == sb.n, "C13: inline text of equal amounts differs in length");
+    let mut i = 0;
+    let mut same = true;
+    while i < 16 {
+        if i < sa.n && sa.buf[i] != sb.buf[i] {
+            same = false;
+        }
+        i += 1;
+    }
+    assert!(same, "C13: inline text of a multi-commodity amount depends on map iteration order");
+    vk_cover!(swap, "second map built in the other insertion order");
+    core::mem::forget(a);
+    core::mem::forget(b);
+} }
+
+#[cfg(all(test, not(kani)))]
+#[test]
+fn verif_replay_entry() {
+    crate::vk::replay_dispatch(&[
+        ("c08_single_amount_required", c08_single_amount_required as fn()),
+        ("c13_inline_display_order", c13_inline_display_order as fn()),
+    ]);
 }
